@@ -3,26 +3,14 @@ package main
 import (
 	"fmt"
 
-	"github.com/golang/geo/s1"
 	"github.com/golang/geo/s2"
 )
 
 func main() {
-	idx := s2.NewShapeIndex()
-	for k := 0; k < 40; k++ {
-		idx.Add(s2.RegularLoop(s2.PointFromLatLng(s2.LatLngFromDegrees(float64(k*4-80), float64(k*9))), s1.Angle(0.02), 8))
+	for _, d := range []float64{1e-100, 1e-158, 1e-160, 1e-162, 1e-170, 1e-300} {
+		a0, a1 := s2.Point{Vector: s2.PointFromCoords(1, 0, 0).Vector}, s2.Point{Vector: s2.PointFromCoords(0, 1, 0).Vector}
+		b0, b1 := s2.PointFromCoords(1, 0, -d), s2.PointFromCoords(0, 1, d)
+		x := s2.Intersection(a0, a1, b0, b1)
+		fmt.Println(d, s2.CrossingSign(a0, a1, b0, b1), x, x.Norm())
 	}
-	idx2 := s2.NewShapeIndex()
-	for k := 0; k < 12; k++ {
-		idx2.Add(s2.RegularLoop(s2.PointFromLatLng(s2.LatLngFromDegrees(float64(k*7-40), float64(k*9+4))), s1.Angle(0.01), 6))
-	}
-	fresh := func() s1.ChordAngle {
-		t := s2.NewMinDistanceToShapeIndexTarget(idx2)
-		q := s2.NewClosestEdgeQuery(idx, s2.NewClosestEdgeQueryOptions())
-		return q.Distance(t)
-	}
-	t := s2.NewMinDistanceToShapeIndexTarget(idx2)
-	q := s2.NewClosestEdgeQuery(idx, s2.NewClosestEdgeQueryOptions())
-	fmt.Println("IsDistanceLess:", q.IsDistanceLess(t, s1.ChordAngleFromAngle(1.0)))
-	fmt.Println("reused Distance:", q.Distance(t).Angle().Degrees(), "fresh:", fresh().Angle().Degrees())
 }
